@@ -82,6 +82,40 @@ def run(ck):
                     if has_ud:
                         ud = data.obj.items.get("unitary_dict")
                         ck.check(ud is s_obj.inst.attrs["unitary_dict"], "C11.R3", inst + ":unitary_dict stored", ssite, "the state's unitary dictionary is not what is stored under 'unitary_dict'")
+        # ------------------------------------------------------------ R3 (second save): what is written is the model as it is now
+        for how in ("reinitialize_parameters()", "load()"):
+            inst = "%s.save after %s and an earlier save" % (cls, how)
+            with ck.guard("C11.R3", inst, ssite):
+                def th2(it, how=how):
+                    s = make_state(it, cls)
+                    call(it, s, "save", api.basis_str(it))
+                    if how.startswith("reinit"):
+                        call(it, s, "reinitialize_parameters")
+                    else:
+                        call(it, s, "load", api.basis_str(it))
+                    n0 = len(it.ext_calls)
+                    call(it, s, "save", api.basis_str(it))
+                    return s, n0
+
+                for p in [q for q in paths_of(prog, th2, max_paths=40, sticky=True) if q.outcome == "return"]:
+                    s_obj, n0 = p.value
+                    saves = [c for c in p.interp.ext_calls[n0:] if c[0] == "torch.save"]
+                    data = saves[0][1][0] if len(saves) == 1 and saves[0][1] else None
+                    if not isinstance(data, VDict) or data.obj.items is None:
+                        ck.undecided("C11.R3", inst + ":payload", ssite, "payload of the second torch.save is not a known dict")
+                        continue
+                    from ..ops_ext import module_params
+
+                    for net in state_networks(p.interp, s_obj):
+                        sd = data.obj.items.get(net)
+                        mv = p.interp.get_attr(s_obj, net, None)
+                        cur = dict(module_params(p.interp, mv))
+                        okn = None
+                        if isinstance(sd, VDict) and sd.obj.items is not None:
+                            okn = list(sd.obj.items.keys()) == list(cur.keys()) and all(isinstance(sd.obj.items[n], VTens) and sd.obj.items[n].obj is cur[n].obj for n in cur)
+                        ck.check(okn, "C11.R3", inst + ":%s holds the current parameters" % net, ssite,
+                                 "after %s the entry '%s' written by save() holds tensors that are no longer the network's parameters (a state_dict assembled for an earlier save is written again)" % (how, net),
+                                 key="C11.R3|save|stale state_dict")
         # ------------------------------------------------------------ R2 reserved names
         def nets_of(cls=cls):
             return ["rbm_am"] if cls == "PositiveWaveFunction" else ["rbm_am", "rbm_ph"]
@@ -252,8 +286,27 @@ def run(ck):
                 ck.check(bool(idx) and not after, "C11.R3", cls + ".autoload:loaded parameters left untouched/" + _c(p), after[0].site if after else asite,
                          "autoload changes a parameter after loading it (%s): the reconstructed model is not bit-identical to the saved one" % (after[0].detail if after else "no load_state_dict seen"))
                 lc = [c for c in p.calls if c[0].endswith(".load") and c[0].split(".")[0] in ("NeuralStateBase", cls)]
-                ck.check(len(lc) == 1 and lc[0][5].get("location") is loc, "C11.R3", cls + ".autoload:loads parameters/" + _c(p), asite,
-                         "autoload does not call load(location) on the new model")
+                if lc:
+                    ck.check(len(lc) == 1 and lc[0][5].get("location") is loc, "C11.R3", cls + ".autoload:loads parameters/" + _c(p), asite,
+                             "autoload does not call load(location) on the new model")
+                else:
+                    # the parameters are loaded some other way (the file parsed once, the networks filled from it): by effect - one
+                    # load_state_dict per network of the new model
+                    nets_ = state_networks(p.interp, st)
+                    ck.check(True if len(idx) >= len(nets_) else None, "C11.R3", cls + ".autoload:loads parameters/" + _c(p), asite,
+                             "autoload fills %d of the %d networks of the new model from the file" % (len(idx), len(nets_)))
+                # whichever way the parameters are loaded: every network receives the file's entry of its own name
+                from ..ops_ext import module_params as _mp
+
+                for net in state_networks(p.interp, st):
+                    srcs = set()
+                    for pn_, q in _mp(p.interp, p.interp.get_attr(st, net, None)):
+                        for n_ in (q.obj.term.syms() if q.obj.term is not None else ()):
+                            if n_.startswith("loaded:") and n_.count(":") >= 2:
+                                srcs.add(n_.split(":", 2)[1])
+                    if srcs:
+                        ck.check(all("[%s]" % net in t_.replace("'", "").replace('"', "") for t_ in srcs), "C11.R3", cls + ".autoload:%s filled from the file's '%s' entry/%s" % (net, net, _c(p)), asite,
+                                 "network %s of the reconstructed model is filled from %s" % (net, sorted(srcs)), key="C11.R3|autoload|wrong entry")
     ck.require_min("C11.R1", 30)
     ck.require_min("C11.R2", 5)
     ck.require_min("C11.R3", 40)
